@@ -86,7 +86,10 @@ def cases(draw):
         chain.append({'kind': draw(st.sampled_from(['independent', 'shared', 'clone'])), 'of': draw(st.integers(0, 5)),
                       'kdf': draw(st.one_of(st.sampled_from(KDFS), st.just({'name': 'scrypt', 'n': 3}),
                                             st.just({'name': 'sha2'}), st.just({'name': 'blake2b', 'unknown': 1}))),
-                      'pw': draw(st.integers(0, 5))})
+                      'pw': draw(st.integers(0, 5)),
+                      # where the new key goes: printed (the default), or written to a key file - one of two paths that
+                      # later links may write again, and that may already hold something longer
+                      'out': draw(st.sampled_from([None, None, 'a', 'a', 'b']))})
     return {'kind': 'chain', 'base': draw(st.integers(0, len(LATTICE) - 1)), 'chain': chain, 'pw0': draw(st.integers(0, 5))}
 
 
@@ -261,16 +264,38 @@ def _chain(case, work):
         kind = link['kind']
         pw = src['pw'] if kind == 'clone' else PASSWORDS[link['pw'] % len(PASSWORDS)]
         before = dict(store.objects)
+        out_path = None
+        if link.get('out'):
+            out_path = os.path.join(work, 'key-' + link['out'])
+            if link['out'] == 'b' and not os.path.exists(out_path):
+                with open(out_path, 'wb') as fh:
+                    fh.write(b'{"an older, longer key file": "' + b'x' * 900 + b'"}')
         try:
             key, printed = world.add_key(backend, world.Cred(src['pw'], src['key']), new_password=pw,
                                          shared=kind in ('shared', 'clone'), settings={'encryption': {'kdf': dict(link['kdf'])}},
-                                         return_printed=True)
+                                         return_printed=True, key_output_path=out_path)
         except Exception:
             classes.append('add-key-rejected')
             if store.objects != before:
                 return Outcome(fail('rejected-but-touched', 'rejected add-key changed the backend'), classes)
             continue
         classes.append('add-key:' + kind)
+        if out_path is not None:
+            # the key file is what the user keeps and passes to every later command
+            classes.append('key-file-rewritten' if sum(1 for l in case['chain'] if l.get('out') == link['out']) > 1 or link['out'] == 'b'
+                           else 'key-file')
+            with open(out_path, 'rb') as fh:
+                written = fh.read()
+            try:
+                from .. import refimpl
+                same = refimpl.loads(written) == refimpl.loads(key)
+            except Exception as e:
+                return Outcome(fail('key-file', f'the key file written by add-key does not parse ({type(e).__name__}: {e}); '
+                                    f'{len(written)} bytes on disk, the key serialises to {len(key)}'), classes, True)
+            if not same:
+                return Outcome(fail('key-file', 'the key file written by add-key differs from the key it returned'), classes, True)
+            users.append({'pw': pw, 'key': written, 'family': src['family'] if kind != 'independent' else len(users) + 100})
+            continue
         # without an output path the new key is printed: that text is what the user saves and uses from then on
         start = printed.find('{')
         try:
